@@ -239,6 +239,8 @@ def program_text(P):
             setup.append(f"        terminate when _symx_cond({sub['terminate_when']!r})")
         if sub.get("terminate_sim_when"):
             setup.append(f"        terminate simulation when _symx_cond({sub['terminate_sim_when']!r})")
+        if sub.get("record"):
+            setup.append("        record _symx_log('sub-record') as subrec")
         if sub.get("setup_log"):
             setup.append(f"        _symx_log({sub['setup_log']!r})")
         L += setup or ["        pass"]
@@ -550,6 +552,9 @@ class Ref:
             # 2. record
             if P.get("record"):
                 self.ev("record")
+            for sub in self.running_subs:
+                if sub.running and self.P["subs"][sub.name].get("record"):
+                    self.ev("sub-record")
             # 3. monitors
             if mon is not None and term is None:  # a scenario that has just stopped has stopped its monitors
                 try:
